@@ -97,6 +97,8 @@ def _pair(m, classes, rules, minimum):
 def only_functions(res, prefixes):
     """restrict a result to findings in functions of the given classes (the counts keep describing the whole rule)"""
     res.findings = [f for f in res.findings if f.function.startswith(tuple(prefixes))]
+    if hasattr(res, 'inconclusive'):
+        res.inconclusive = [w for w in res.inconclusive if any(p in w for p in prefixes)]
     return res
 
 
@@ -105,7 +107,7 @@ def c01(m, tier):
         rules_struct.rule_insertion_guard(m), rules_struct.rule_hasedge(m), rules_struct.rule_full_loops(m, [LDG]),
         rules_struct.rule_observers(m), rules_decl.rule_encapsulation(m), rules_struct.rule_bulk_complete(m),
         rules_struct.rule_forwarding(m), rules_struct.rule_observer_loops(m), rules_decl.rule_defaults(m), rules_ts.rule_cursor_direction(m),
-        rules_xport.rule_idx(m)]
+        rules_xport.rule_idx(m), only_functions(rules_xport.rule_xport(m), ['LabeledDirectedGraph'])]
 
 
 def c02(m, tier):
@@ -113,7 +115,9 @@ def c02(m, tier):
         rules_struct.rule_ordered_edge(m), rules_struct.rule_selfloop_convention(m), rules_struct.rule_insertion_guard(m),
         rules_struct.rule_hasedge(m), rules_struct.rule_full_loops(m, [LUG]), rules_struct.rule_observers(m),
         rules_decl.rule_encapsulation(m), rules_struct.rule_bulk_complete(m), rules_struct.rule_observer_loops(m), rules_decl.rule_defaults(m), rules_ts.rule_cursor_direction(m),
-        rules_xport.rule_idx(m)]
+        rules_xport.rule_idx(m),
+        # the edge-sequence constructors and the conversion from a directed graph are insertions too (unforced, both halves)
+        only_functions(rules_xport.rule_xport(m), ['LabeledUndirectedGraph'])]
 
 
 def c03(m, tier):
@@ -152,16 +156,19 @@ def c16(m, tier):
     return [rules_struct.rule_insertion_guard(m)] + _pair(
         m, None, ['F-PAIR.N', 'F-PAIR.T', 'F-PAIR.M', 'F-PAIR.L'],
         {'F-PAIR.N': 40, 'F-PAIR.T': 17, 'F-PAIR.M': 15, 'F-PAIR.L': 30}) + [rules_ts.rule_sorted_range(m), rules_decl.rule_defaults(m), rules_ts.rule_cursor_direction(m),
-         rules_struct.rule_selfloop_convention(m)]
+         rules_struct.rule_selfloop_convention(m), rules_struct.rule_forwarding(m)]
 
 
 def c08(m, tier):
     return [rules_xport.rule_idx(m), rules_struct.rule_full_loops(m), rules_ts.rule_typestate(m), rules_ts.rule_cursor_direction(m),
-            rules_decl.rule_encapsulation(m)]       # (which edges() / begin() / end() each of the eight classes publishes)
+            rules_decl.rule_encapsulation(m),       # (which edges() / begin() / end() each of the eight classes publishes)
+            # conversions are defined by enumerating edges: every edge of the source, once
+            only_functions(rules_xport.rule_xport(m), ['LabeledUndirectedGraph', 'LabeledDirectedGraph'])]
 
 
 def c09(m, tier):
-    return [rules_xport.rule_xport(m), dropped_cells_result(m, {'ctor', 'conv', 'copy'}), rules_decl.rule_valsem(m)]
+    return [rules_xport.rule_xport(m), dropped_cells_result(m, {'ctor', 'conv', 'copy'}), rules_decl.rule_valsem(m),
+            rules_struct.rule_nolabel_store(m)]
 
 
 def c10(m, tier):
@@ -448,17 +455,18 @@ def scope_entries(m, prop):
               'findMultiplePathsToVertexFromPredecessors', 'findSourceVertex', 'assertVertexInGraph')
     conv = ('::getReversedGraph', '::getDirectedGraph')
     table = {
-        # conversions belong to C09; the edge-list / conversion constructors too
-        'C01': {k for k in without(E(LDG), *conv) if not (k.split('#')[0].endswith('::LabeledDirectedGraph') and
-                                                      k.split('#')[1] != 'unsigned long')} |
+        # conversions belong to C09 (and, as enumerations of edges, to C08)
+        'C01': without(E(LDG), *conv) |
                K('BaseGraph::VertexIterator::VertexIterator', 'BaseGraph::VertexIterator::operator++',
                  'BaseGraph::VertexIterator::operator!=', 'BaseGraph::VertexIterator::operator*'),
-        'C02': {k for k in without(E(LUG), *conv) if not (k.split('#')[0].endswith('::LabeledUndirectedGraph') and
-                                                      k.split('#')[1] != 'unsigned long')},
+        # (the edge-sequence constructors are where a history starts: a sequence naming a pair twice adds it once)
+        'C02': without(E(LUG), *conv),
         'C03': without(E(LDG) | E(LUG), *conv),
         'C04': E(DMG) | E(UMG),
         'C05': E(DWG) | E(UWG),
         'C08': {t for t in (E(LDG) | E(LUG)) if '::Edges' in t or t.split('#')[0].endswith(('::begin', '::end', '::edges'))} |
+               {t for t in E(LUG) if t.split('#')[0].endswith('::getDirectedGraph') or
+                (t.split('#')[0].endswith('::LabeledUndirectedGraph') and 'LabeledDirectedGraph' in t.split('#')[1])} |
                {tk for f in m.fns if (f.record or '') == 'BaseGraph::VertexIterator' for tk in m.tkeys_of(f.tname)},
         'C09': {t for c in (LDG, LUG, DMG, UMG, DWG, UWG) for t in E(c)
                 if t.split('#')[0].endswith(conv) or t.split('#')[0].split('::')[-1] == c.split('::')[-1]},
